@@ -55,6 +55,11 @@ def gen_struct(rng):
     if k < 0.27:
         a, b = rng.choice(codes), rng.choice(codes)
         form = rng.randrange(4)
+        if rng.random() < 0.35:
+            # the money literal in one of its other spellings: symbol before / behind / behind a blank, magnitude suffix with code or symbol
+            sym = rng.choice(['usd', 'eur', 'try'])
+            lit = ('m', x, rng.choice(['sym-pre', 'sym-post', 'sym-post-sp', 'k-code', 'k-sym', 'pre-k', 'M-code']), sym)
+            return 'money', [[lit], [lit, 'to', b], [lit, '*', N('2')], [lit, '+', N(y), b]][form]
         if form == 0:
             return 'money', [N(x), a, 'to', b]
         if form == 1:
@@ -102,7 +107,12 @@ def render(items, sep, grouped, pct_suffix=True):
             lines.append(' '.join(cur))
             cur = []
         elif isinstance(it, tuple):
-            if it[0] == 'n':
+            if it[0] == 'm':
+                lit = render_literal(it[1], sep, grouped)
+                symbol = {'usd': '$', 'eur': '€', 'try': '₺'}[it[3]]
+                cur.append({'sym-pre': symbol + lit, 'sym-post': lit + symbol, 'sym-post-sp': lit + ' ' + symbol, 'k-code': lit + 'k ' + it[3],
+                            'k-sym': lit + 'k ' + symbol, 'pre-k': symbol + lit + 'k', 'M-code': lit + 'M ' + it[3]}[it[2]])
+            elif it[0] == 'n':
                 lit = render_literal(it[1], sep, grouped)
                 cur.append((it[2] if len(it) > 2 else '') + lit)
             else:
